@@ -1,10 +1,15 @@
 (* Extraction of the executable models (ExtrOcamlBasic only: bool/option/unit/list/prod/sumbool
    become the OCaml types; N, Z, positive, nat stay Coq datatypes). *)
 From Coq Require Import Extraction ExtrOcamlBasic.
-From GGRS Require Import Base Varint Rle Codec Builder.
+From GGRS Require Import Base Varint Rle Codec Builder Queue TimeSync Endpoint.
 (* Z is used by every level driver *)
 From Coq Require Import ZArith.
 Extraction Language OCaml.
 Extraction "model.ml" Z.add N.add Nat.add
   Codec.encode Codec.decode Codec.decode_unvalidated
-  Builder.run_calls.
+  Builder.run_calls
+  Queue.q_new Queue.add_input Queue.input Queue.confirmed_input Queue.discard_confirmed_frames
+  Queue.reset_prediction Queue.set_frame_delay Queue.set_frame_delay_old
+  TimeSync.ts_new TimeSync.ts_advance_frame TimeSync.ts_average_frame_advantage
+  TimeSync.ts_round_trip_time TimeSync.ts_update_local_frame_advantage TimeSync.ts_report_frame_advantage
+  Endpoint.ep_new Endpoint.step Endpoint.drain Endpoint.network_stats Endpoint.last_recv_frame Endpoint.is_running Endpoint.is_synchronized Z.mul Z.div Z.modulo.
